@@ -261,7 +261,7 @@ def rule_ownership_semantics(ctx, ix):
         "object graph after allocate / hand-over / construction: kernel arrays wrapped once with free and held by the structure's holder; nothing dangling",
         min_instances=20,
     )
-    for order in range(0, 4):
+    for order in range(0, 6 if getattr(ctx, "tier", "quick") == "thorough" else 4):
         for modes in itertools.product((0, 1), repeat=order):
             label = "".join("ds"[m] for m in modes) or "scalar"
             for what, fn in (("kernel output", check_kernel_output), ("Python data", check_python_data)):
